@@ -2064,6 +2064,16 @@ class TupleParser:
         self.check_node(tup_tree, 'ERROR', ('CODE',), ('DESCRIPTION',),
                         ('INSTANCE',))
 
+        # The callers convert the CODE attribute using int()
+        try:
+            int(attrs(tup_tree)['CODE'])
+        except ValueError:
+            raise CIMXMLParseError(
+                _format("Element {0!A} has an invalid value for its CODE "
+                        "attribute (must be a decimal integer): {1!A}",
+                        name(tup_tree), attrs(tup_tree)['CODE']),
+                conn_id=self.conn_id)
+
         # self.list_of_various() has the same effect as self.list_of_same()
         # when used with a single allowed child element, but is a little
         # faster.
